@@ -311,7 +311,9 @@ fn txwrap_case(ctx: &Ctx, i: usize, id: String) -> Case {
             free_dead_bounces();
         }
     }
-    w.ctl(&mut c, key, "shutdown");
+    if !w.dead {
+        w.ctl(&mut c, key, "shutdown");
+    }
     c.nontrivial = w.sent_bytes > (1u64 << 32);
     c.tag(format!("tx-wraps={}", w.sent_bytes >> 32));
     drop(w);
